@@ -17,7 +17,7 @@ CHECKS = {
 CHECKS.update({
     'C01': dict(level='other', technique='abstract interpretation of MIR per operand-pair cell vs exact rational oracle; symbolic bit-vector rounding cells with one symbolic operand; directed probe families',
         text=('Decides the NaR/zero algebra and guard evaluation order of + - * / for all operand pairs of each control-determinate cell; proves a +/- b correctly rounded for a constant a (2^s*1.0 or 2^s*1.1..1) and every b of each regime cell '
-              'for which the exact result is a routing of the bits of b (rounding cells with one symbolic operand: alignment, sticky collection, carry, borrow, rounding, saturation; both operand orders and signs); '
+              'for which the exact result is a routing of the bits of b, and b*2^t, 2^t*b, b/2^t for every b (rounding cells with one symbolic operand: alignment, sticky collection, carry, borrow, rounding, saturation; both operand orders and signs); '
               'rounding-matrix and specification-critical operand pairs are decided singly by constant propagation. Pairs of two dense significands and the multiplier/divider beyond the probed pairs are NOT decided.'), design='4/C01'),
     'C02': dict(level='proof', technique='symbolic bit-vector abstract interpretation of MIR on rounding cells (sign x scale x rounding situation; remaining bits symbolic): result vector == correctly rounded encoding, may-mode path enumeration for undecided tests, concrete confirmation before any alarm; interval cells for zero/subnormal/inf/NaN',
         text=('Every finite non-zero normal f32/f64 lies in exactly one rounding cell (sign, exponent, rounding situation of the target) on which the six from_f32/from_f64 conversions return bit-for-bit the posit-rule rounding (nearest, ties to even encoding, saturating, never zero); zeros, subnormals, infinities and NaNs are decided on interval cells. Hence from_f32(x) == from_f64(x as f64). Quick tier samples the sticky position / carry run for f64->P32E2 only; thorough takes every cell.'), design='4/C02'),
@@ -77,10 +77,10 @@ CHECKS.update({
 CHECKS.update({
     'C11': dict(level='other', technique='literal-table agreement + abstract interpretation per cell against a 400-bit oracle with margin test',
         text=('P8E0::exp and P8E0::ln decided for all 256 inputs (table index term, bounds, every entry vs the correctly rounded value); the ten P16E1 functions decided on every cell in front of '
-              'the polynomial kernels (NaR, domain errors, exact zeros, saturation, rounds-to-1 cut-offs; thorough tier checks every point of each decided cell). The fixed-point kernels are NOT decided.'),
+              'the polynomial kernels (NaR, domain errors, exact zeros, saturation, rounds-to-1 cut-offs; thorough tier checks every point of each decided cell); kernel probes at every 64th encoding (8th in thorough) and the specification-critical encodings must be correctly rounded. The fixed-point kernels between the probe points are NOT decided.'),
         design='4/C11'),
-    'C15': dict(level='other', technique='abstract interpretation (constant / interval propagation through the SLEEF-style bodies) on NaR and out-of-domain cells; constant rule on the Cody-Waite split constants',
-        text=('NaR input gives NaR and out-of-domain arguments (ln/log2 of x<=0, asin/acos of |x|>1) give NaR for the 16 P32E2 functions; the three-part splits of pi, ln 2 and log10 2 used by the argument reductions are correctly rounded splits of the real constants. The stated ULP error bounds are NOT decided (no claim).'),
+    'C15': dict(level='other', technique='abstract interpretation (constant / interval propagation through the SLEEF-style bodies) on NaR and out-of-domain cells; constant rule on the Cody-Waite split constants; constant propagation at probe points with run-time trait resolution',
+        text=('NaR input gives NaR and out-of-domain arguments (ln/log2 of x<=0, asin/acos of |x|>1) give NaR for the 16 P32E2 functions; the three-part splits of pi, ln 2 and log10 2 used by the argument reductions are correctly rounded splits of the real constants; ULP probes: each function is evaluated by constant propagation through its whole body at about 400 definition-derived points and must stay within the stated bound of the 400-bit oracle. The ULP bounds away from those points are NOT decided (no claim).'),
         design='4/C15'),
 })
 
